@@ -184,6 +184,9 @@ class DatagramEndpointProtocol(asyncio.DatagramProtocol):
         self.__write_flow = WriteFlowControl(self.__transport, self.__loop)
         _monkeypatch_transport(transport, self.__loop)
 
+        # Disable in-memory byte buffering.
+        transport.set_write_buffer_limits(0)
+
     def connection_lost(self, exc: Exception | None) -> None:
         self.__connection_lost = True
 
